@@ -122,27 +122,23 @@ def gen_cal(tier, rng, quick):
         for b in by + [-32768, R(-32768, 32767)]:
             out.append(f"year_cmp {a} {b}")
     # --- month
-    for m in list(range(0, 20)) + [100, 127, 128, 200, 253, 254] + [R(0, 254) for _ in range(5)]:
+    for m in list(range(0, 20)) + [100, 127, 128, 200, 253, 254, 255] + [R(0, 255) for _ in range(5)]:
         for dm in list(range(-26, 27)) + [I32 - 1, -(I32 - 1), 1000003, -1000003, R(-10**6, 10**6), R(-I32 + 1, I32 - 1)]:
             out.append(f"month_arith {m} {dm}")
-    for a in list(range(0, 15)) + [254]:
-        for b in list(range(0, 15)) + [254]:
+    for a in list(range(0, 15)) + [254, 255]:
+        for b in list(range(0, 15)) + [254, 255]:
             out.append(f"month_cmp {a} {b}")
-            out.append(f"day_cmp {min(a + 20, 254)} {min(b + 20, 254)}")
+            out.append(f"day_cmp {min(a + 20, 255)} {min(b + 20, 255)}")
             out.append(f"day_cmp {a} {b}")
-    for v in list(range(0, 40)) + [127, 128, 253, 254, 256, 257, 300, 511, 512, 65535, 65536, 2**32 - 1, R(256, 2**32 - 1)]:
+    for v in list(range(0, 40)) + [127, 128, 253, 254, 255, 256, 257, 300, 511, 512, 65535, 65536, 2**32 - 1, R(256, 2**32 - 1)]:
         out.append(f"mctor {v}")
         out.append(f"dctor {v}")
-    out.append("mctor_max 255")
-    out.append("dctor_max 255")
     # --- day
-    for d in list(range(0, 36)) + [100, 127, 128, 200, 250, 253, 254]:
+    for d in list(range(0, 36)) + [100, 127, 128, 200, 250, 253, 254, 255]:
         for dd in list(range(-40, 41)) + [255 - d, 254 - d, 256 - d, -d, -d - 1, 255, 256, -255, -256, 2**31 - 1, -2**31, 2**31 - 256, R(-10**6, 10**6), R(-300, 300)]:
             out.append(f"day_assign {d} {dd}")
-            if dd != -2**31:
-                pass
-            out.append(f"day_plus_max {d} {dd}" if d + dd == 255 else f"day_plus {d} {dd}")
-            out.append(f"day_minus_max {d} {dd}" if d - dd == 255 else f"day_minus {d} {dd}")
+            out.append(f"day_plus {d} {dd}")
+            out.append(f"day_minus {d} {dd}")
     # --- weekday, weekday_indexed, weekday_last, month_day, month_weekday
     for w in list(range(0, 12)) + [127, 128, 254, 255]:
         for idx in range(0, 8):
@@ -151,8 +147,8 @@ def gen_cal(tier, rng, quick):
     for w in range(0, 8):
         for idx in [8, 9, 100, 255, 256, 261, 511, 65536 + 3]:
             out.append(f"wd_misc {w} {idx}")
-    for m in list(range(0, 15)) + [254]:
-        for d in list(range(0, 34)) + [254]:
+    for m in list(range(0, 15)) + [254, 255]:
+        for d in list(range(0, 34)) + [254, 255]:
             out.append(f"md_ok {m} {d}")
         for w in range(0, 9):
             for idx in list(range(0, 8)) + [200]:
@@ -160,12 +156,12 @@ def gen_cal(tier, rng, quick):
     # --- year_month +/- years, year_month_day +/- months / years (no clamping of the day)
     dms = list(range(-14, 15)) + [24, -24, 25, -25, 1200, -1200]
     for y in ys:
-        for m in [0, 1, 2, 6, 12, 13, 254]:
+        for m in [0, 1, 2, 6, 12, 13, 254, 255]:
             for dy in [0, 1, -1, 4, -100, R(-300, 300)]:
                 out.append(f"ym_years {y} {m} {dy}")
         for _ in range(6 if quick else 30):
             m = R(1, 12)
-            d = rng.choice([0, 1, 28, 29, 30, 31, 32, R(1, 31), R(0, 254)])
+            d = rng.choice([0, 1, 28, 29, 30, 31, 32, 255, R(1, 31), R(0, 255)])
             out.append(f"ymd_arith {y} {m} {d} {rng.choice(dms + [R(-5000, 5000)])} {rng.choice([0, 1, -1, 4, -4, 100, R(-500, 500)])}")
         for (m, d) in [(1, 31), (2, 29), (3, 31), (12, 31), (1, 29), (1, 30)]:
             for dm in [1, -1, 11, 12, -12, 13, 25, -23]:
@@ -175,7 +171,7 @@ def gen_cal(tier, rng, quick):
     for y in yall:
         for m in range(1, 13):
             out.append(f"ymdl {y} {m}")
-            for d in [0, 1, 31, 32, 60, 254, R(0, 254)]:
+            for d in [0, 1, 31, 32, 60, 254, 255, R(0, 255)]:
                 out.append(f"days_any {y} {m} {d}")
             for w in range(0, 7):
                 out.append(f"ymwdl {y} {m} {w}")
@@ -185,7 +181,7 @@ def gen_cal(tier, rng, quick):
                     out.append(f"ymwd_to {y} {m} {w} {idx}")
             out.append(f"ymwd_ok {y} {m} {R(0, 8)} {R(6, 255)}")
             out.append(f"ymwd_to {y} {m} {R(0, 6)} {R(7, 255)}")
-        for m in [0, 13, 14, 254]:
+        for m in [0, 13, 14, 254, 255]:
             out.append(f"ymdl_bad {y} {m}")
             out.append(f"ymdl_ok {y} {m}")
             out.append(f"ymwd_ok {y} {m} {R(0, 6)} {R(1, 5)}")
@@ -235,11 +231,11 @@ def gen_cal(tier, rng, quick):
             if -2**31 <= z <= ZMAX:
                 out.append(f"civil_any {z}")
     for y in [-32768, -32767, -1, 0, 1, 2024, 32767]:
-        for m in [0, 1, 2, 3, 12, 13, 14, 100, 254]:
-            for d in [0, 1, 31, 32, 254]:
+        for m in [0, 1, 2, 3, 12, 13, 14, 100, 254, 255]:
+            for d in [0, 1, 31, 32, 254, 255]:
                 out.append(f"days_raw {y} {m} {d}")
     for _ in range(300 if quick else 20000):
-        out.append(f"days_raw {R(-32768, 32767)} {R(0, 254)} {R(0, 254)}")
+        out.append(f"days_raw {R(-32768, 32767)} {R(0, 255)} {R(0, 255)}")
     # --- == / != of every calendar type; operator/ spellings
     for _ in range(600 if quick else 6000):
         a = [rng.choice(by + [-32768]), R(0, 14), R(0, 9), R(0, 7)]
@@ -251,7 +247,7 @@ def gen_cal(tier, rng, quick):
             a[2], b[2] = 7, 0      # weekday{7} == weekday{0}, day{7} != day{0}
         out.append("eq_all " + " ".join(map(str, a + b)))
     for y in by + [-32768, 40000, -40000]:
-        for (m, d) in [(1, 1), (2, 29), (12, 31), (0, 0), (13, 32), (254, 254), (R(0, 254), R(0, 254))]:
+        for (m, d) in [(1, 1), (2, 29), (12, 31), (0, 0), (13, 32), (254, 254), (255, 255), (256, 1), (1, 256), (R(0, 255), R(0, 255))]:
             out.append(f"slash {y} {m} {d}")
     return out
 
